@@ -1,4 +1,5 @@
 import AmaranthVerif.Proofs.Exact
+import AmaranthVerif.Proofs.DerivedSpec
 
 /-!
 # C01 — operators compute exact integer results in shapes that never overflow
@@ -46,6 +47,33 @@ def exExpr : Expr :=
 example : exExpr.wf exCtx = true := by decide
 example : denote exCtx exEnv exExpr = 4 := by decide
 example : rtlValue exCtx exEnv exExpr = 4 := by decide
+
+/-! ### Derived operators
+
+`abs`, `shift_left`, `shift_right`, `rotate_left`, `rotate_right`, `replicate` and `Mux` are not AST nodes:
+the methods rewrite them into primitive nodes when called. `mkDerived` is that rewrite (compared structurally
+with what the Python methods return on every run); `Spec.derived` is the Python-integer / bit-sequence meaning. -/
+
+/-- The nodes built for a derived operator are well formed, have the documented shape, and denote the
+documented exact result — for every operand expression, integer amount and environment. -/
+theorem derived_exact (ctx : Ctx) (env : Env) (hok : EnvOk ctx env) (op : DOp) (args : List Expr) (e : Expr)
+    (h : mkDerived ctx op args = some e) (hwf : ∀ a ∈ args, a.wf ctx = true) :
+    e.wf ctx = true ∧
+    derived op (args.map fun a => (shapeOf ctx a, denote ctx env a)) = some (shapeOf ctx e, denote ctx env e) :=
+  derived_build_spec ctx env hok op args e h hwf
+
+/-- … and a simulated circuit computes exactly that. -/
+theorem derived_rtl_exact (ctx : Ctx) (env : Env) (hok : EnvOk ctx env) (op : DOp) (args : List Expr) (e : Expr)
+    (h : mkDerived ctx op args = some e) (hwf : ∀ a ∈ args, a.wf ctx = true) :
+    derived op (args.map fun a => (shapeOf ctx a, denote ctx env a)) = some (shapeOf ctx e, rtlValue ctx env e) := by
+  obtain ⟨h1, h2⟩ := derived_exact ctx env hok op args e h hwf
+  rw [rtl_exact ctx env hok e h1]; exact h2
+
+/-- non-vacuity: `(b - 1).rotate_left(-5)` on a signed 3-bit `b = -4`: the 4-bit pattern 1011 rotated left by 3 -/
+example : (mkDerived exCtx (.rotateLeft (-5)) [.op2 .sub (.sig 1) (.const 1 ⟨1, false⟩)]).map
+    (fun e => (e.wf exCtx, shapeOf exCtx e, denote exCtx exEnv e)) = some (true, ⟨4, false⟩, 13) := by decide
+example : (mkDerived exCtx .abs [.sig 1]).map (fun e => (shapeOf exCtx e, denote exCtx exEnv e)) = some (⟨3, false⟩, 4) := by
+  decide
 
 /-! ### F1: the compiler as found reads raw bits above the MSB in a part-select
 
